@@ -11,11 +11,10 @@ A memo kept on the instance by any query (an `_edge_indices` cache, say) breaks 
 
 `suppliers_ok`: which class of the MRO defines each modelled method, for the three classes, is what the
 model assumes (`from_mask` overridden per class, everything else TriMesh's, `copy` Copyable's).
-`mechanism_ok`: the names referred to by the body of every function `Core/C17Mesh.lean` transcribes
-branch for branch (`from_mask` x3, `from_tri_mask`, `_isolated_mask`, `mask_adjacency_array`,
-`reindex_adjacency_array`, `_normalize`, `compute_face_normals`, `compute_vertex_normals`, `tri_areas`,
-`boundary_tri_index`, the edge queries, `subsampled_grid_triangulation`) are those of the code that was
-transcribed: a body that changes has to be transcribed again before the theorems speak about it.
+`mechanism_ok`: the names referred to by the bodies `Core/C17Mesh.lean` still only transcribes (`TriMesh.as_pointgraph`,
+`subsampled_grid_triangulation`) are those of the code that was transcribed.  Every other anchored function is translated
+from its source text on every run and proved equal to the model (`GenProps/C17Src*.lean`), which supersedes a
+fingerprint of names (and does not break on a behaviour-preserving rewrite).
 -/
 import MenpoModel.Core.C17Mesh
 import MenpoModel.Generated.C17Writes
